@@ -593,6 +593,42 @@ fn check_med(run: &mut Run, a: &[&str], b: &[&str], g: bool) {
     }
 }
 
+/// What holds under every reading of the formula, also for strings whose cleaning depends on the
+/// character unit (a space followed by a combining mark): a list has distance 0 from itself, and
+/// the mean distance is symmetric (no operation is restricted, both sides are prepared alike).
+fn check_med_invariants(run: &mut Run, a: &str, b: &str, g: bool) {
+    run.evaluations += 1;
+    let case = || json!({"kind": "mean_edit_distance_invariants", "a": a, "b": b, "use_graphemes": g});
+    for normalized in [false, true] {
+        let name = if normalized { "mean_normalized_edit_distance" } else { "mean_edit_distance" };
+        let f = |x: &str, y: &str| catch(|| if normalized { metrics::mean_normalized_edit_distance(&[x], &[y], g) } else { metrics::mean_edit_distance(&[x], &[y], g) });
+        run.calls += 3;
+        match (f(a, a), f(a, b), f(b, a)) {
+            (Ok(Ok(aa)), Ok(Ok(ab)), Ok(Ok(ba))) => {
+                run.compared += 1;
+                if aa != 0.0 {
+                    run.violation("mean-distance-of-a-list-from-itself-is-zero", "", case(), format!("{name}([a], [a]) = {aa}"));
+                }
+                if (ab - ba).abs() > EPS {
+                    run.violation("mean-distance-is-symmetric", "", case(), format!("{name}([a], [b]) = {ab}, {name}([b], [a]) = {ba}"));
+                }
+                if ab != 0.0 {
+                    run.nontrivial += 1;
+                }
+            }
+            (x, y, z) => {
+                for r in [x, y, z] {
+                    match r {
+                        Err(p) => run.violation("no-panic", "", case(), format!("{name} panicked: {p}")),
+                        Ok(Err(e)) => run.violation("mean-distance-equals-formula", "", case(), format!("{name} returned Err for equally long lists: {e}")),
+                        _ => {}
+                    }
+                }
+            }
+        }
+    }
+}
+
 // ------------------------------------------------------------------------------------------------
 // enumeration
 // ------------------------------------------------------------------------------------------------
@@ -763,6 +799,7 @@ fn replay(run: &mut Run, c: &Value) {
             let (a, b) = (strs(&c["sequences"]), strs(&c["targets"]));
             check_med(run, &as_strs(&a), &as_strs(&b), g);
         }
+        "mean_edit_distance_invariants" => check_med_invariants(run, c["a"].as_str().unwrap(), c["b"].as_str().unwrap(), g),
         other => panic!("unknown case kind {other:?}"),
     }
 }
@@ -937,6 +974,18 @@ fn main() {
     }
     // ---- phase Z
     if run.unit(sp.z) {
+        // (reading-independent clauses of the mean edit distance on strings with clusters that mix
+        // whitespace and a combining mark)
+        let mixed = strings(&["a", " ", "\u{301}", "b"], run.pick(3, 4));
+        run.bounds.insert("mean_distance_invariants".into(), json!(format!("every ordered pair of the {} strings of at most {} symbols over [a, space, U+0301, b] x use_graphemes: distance 0 from itself, symmetric", mixed.len(), run.pick(3, 4))));
+        for a in &mixed {
+            for b in &mixed {
+                for g in [false, true] {
+                    check_med_invariants(&mut run, a, b, g);
+                }
+            }
+            run.tick();
+        }
         for g in [false, true] {
             eval_list(&mut run, Kind::Spelling, &[], &[], g);
             for m in 0..3 {
